@@ -108,20 +108,23 @@ const Statement * FORStatement::doit(Context& ctx) const
     /* var is type safe, so it can be read/write without care */
     /* the control variable never wraps around: test the remaining room
      * before stepping, using the unsigned distance to the limit */
-    Integer cur = *(data->iterator->integer());
+    Integer * itr = data->iterator->integer();
     bool out;
-    if (data->step > 0)
-      out = (cur > data->max ||
-             uint64_t(data->step) > uint64_t(data->max) - uint64_t(cur));
+    if (itr == nullptr)
+      /* a control variable set to null in the body has left the range */
+      out = true;
+    else if (data->step > 0)
+      out = (*itr > data->max ||
+             uint64_t(data->step) > uint64_t(data->max) - uint64_t(*itr));
     else
-      out = (cur < data->min ||
-             uint64_t(0) - uint64_t(data->step) > uint64_t(cur) - uint64_t(data->min));
+      out = (*itr < data->min ||
+             uint64_t(0) - uint64_t(data->step) > uint64_t(*itr) - uint64_t(data->min));
     if (out)
     {
       ctx.unstackControl();
       return _next;
     }
-    *(data->iterator->integer()) = cur + data->step;
+    *itr += data->step;
   }
 
   /* it should run with the given context, and will throw on error */
